@@ -5,5 +5,7 @@ CONSTANTS
   MaxPend = 1
   Threads = {"req", "upd", "log"}
   UseLock = TRUE
+  CheckRunning = TRUE
 INVARIANT LinesWhole
+INVARIANT NoGlue
 CHECK_DEADLOCK FALSE
